@@ -59,6 +59,21 @@ def mk(kind, *a):
     if kind == 'bit':
         v, = a
         return Op(desc, lambda b: b.store_bit(v), str(v), 0, lambda s: s.load_bit(), lambda s: s.preload_bit(), v, eq=lambda x, y: int(x) == int(y))
+    if kind == 'bit_form':      # store_bit accepts an int, a bool, a one-character string and a bit array
+        v, form = a
+
+        def arg():
+            if form == 'bool':
+                return bool(v)
+            if form == 'str':
+                return str(v)
+            if form == 'tvm':
+                from pytoniq_core.boc.tvm_bitarray import TvmBitarray
+                t = TvmBitarray()
+                t.extend(str(v) + '01')          # only its first bit is the value
+                return t
+            return v
+        return Op(desc, lambda b: b.store_bit(arg()), str(v), 0, lambda s: s.load_bit(), lambda s: s.preload_bit(), v, eq=lambda x, y: int(x) == int(y))
     if kind == 'bool':
         v, = a
         return Op(desc, lambda b: b.store_bool(bool(v)), str(int(v)), 0, lambda s: s.load_bool(), lambda s: s.preload_bool(), bool(v))
@@ -107,6 +122,11 @@ def mk(kind, *a):
         v, ln = a
         ea = ExternalAddress(v, ln)
         return Op(desc, lambda b: b.store_address(ea), RBITS.addr_extern(v, ln), 0, lambda s: s.load_address(), lambda s: s.preload_address(), ea, eq=_addr_eq)
+    if kind == 'addr_ext_form':     # ExternalAddress built from hex text / bytes instead of an int
+        v, ln, form = a
+        raw = v.to_bytes((ln + 7) // 8, 'big')
+        ea = ExternalAddress(raw.hex() if form == 'hex' else raw, ln)
+        return Op(desc, lambda b: b.store_address(ea), RBITS.addr_extern(v, ln), 0, lambda s: s.load_address(), lambda s: s.preload_address(), ExternalAddress(v, ln), eq=_addr_eq)
     if kind == 'addr_std':
         wc, hx, anycast = a
         acc = bytes.fromhex(hx)
@@ -125,6 +145,9 @@ def mk(kind, *a):
         hx, = a
         data = bytes.fromhex(hx)
         return Op(desc, lambda b: b.store_snake_bytes(data), None, None, lambda s: s.load_snake_bytes(), None, data, terminal=True)
+    if kind == 'snake_string_prefixed':     # need_prefix=True: a zero byte in front (the on-chain "snake" content format)
+        text, = a
+        return Op(desc, lambda b: b.store_snake_string(text, True), None, None, lambda s: s.load_snake_bytes(), None, b'\x00' + text.encode(), terminal=True)
     if kind == 'snake_string':
         text, = a
         return Op(desc, lambda b: b.store_snake_string(text), None, None, lambda s: s.load_snake_string(), None, text, terminal=True)
